@@ -18,11 +18,15 @@ def menu():
             _xofields = {"a": xo.Int64, "b": xo.Float64[:]}
 
         _menu.update(
-            sc=dict(ftype=xo.Int64, defaults=[("none", {}, None), ("default", dict(default=42), 42), ("factory", dict(default_factory=lambda: 7), 7)], values=[("zero", 0), ("diff", 5)]),
-            fl=dict(ftype=xo.Float64, defaults=[("none", {}, None), ("default", dict(default=1.5), 1.5)], values=[("zero", 0.0), ("diff", -2.25)]),
-            st=dict(ftype=xo.String, defaults=[("none", {}, None), ("default", dict(default="abc"), "abc")], values=[("empty", ""), ("diff", "hello wörld")]),
-            sa=dict(ftype=xo.Float64[3], defaults=[("none", {}, None), ("default", dict(default=[1.0, 2.0, 3.0]), [1.0, 2.0, 3.0])], values=[("zero", [0.0, 0.0, 0.0]), ("diff", [4.0, 5.5, 6.0])]),
-            da=dict(ftype=xo.Int32[:], defaults=[("none", {}, None), ("default", dict(default=[4, 5]), [4, 5]), ("factory", dict(default_factory=lambda: xo.Int32[:]([9])), [9])], values=[("empty", []), ("diff", [1, 2, 3]), ("zero", [0])]),
+            sc=dict(ftype=xo.Int64, defaults=[("none", {}, None), ("default", dict(default=42), 42), ("factory", dict(default_factory=lambda: 7), 7)], values=[("zero", 0), ("diff", 5), ("near", 43), ("big", 2**40 + 42)]),
+            # values *near* the default (same after a lossy cast, prefix / extension of it) are part of the alphabet:
+            # an elision test that compares in the wrong type or only a prefix drops them
+            fl=dict(ftype=xo.Float64, defaults=[("none", {}, None), ("default", dict(default=1.5), 1.5), ("factory-int", dict(default_factory=lambda: 0), 0), ("factory-int3", dict(default_factory=lambda: 3), 3)],
+                    values=[("zero", 0.0), ("diff", -2.25), ("near", 0.5), ("near-neg", -0.25), ("near3", 3.75), ("near-default", 1.5000000000000002)]),
+            st=dict(ftype=xo.String, defaults=[("none", {}, None), ("default", dict(default="abc"), "abc")], values=[("empty", ""), ("diff", "hello wörld"), ("extends-default", "abcdef"), ("prefix-of-default", "ab"), ("case", "ABC")]),
+            sa=dict(ftype=xo.Float64[3], defaults=[("none", {}, None), ("default", dict(default=[1.0, 2.0, 3.0]), [1.0, 2.0, 3.0]), ("factory-ints", dict(default_factory=lambda: [1, 2, 3]), [1, 2, 3])],
+                    values=[("zero", [0.0, 0.0, 0.0]), ("diff", [4.0, 5.5, 6.0]), ("near", [1.5, 2.25, 3.0]), ("one-off", [1.0, 2.0, 3.5])]),
+            da=dict(ftype=xo.Int32[:], defaults=[("none", {}, None), ("default", dict(default=[4, 5]), [4, 5]), ("factory", dict(default_factory=lambda: xo.Int32[:]([9])), [9])], values=[("empty", []), ("diff", [1, 2, 3]), ("zero", [0]), ("extends-default", [4, 5, 6]), ("prefix-of-default", [4])]),
             hy=dict(ftype=C19Inner, defaults=[("none", {}, None)], values=[("diff", dict(a=3, b=[1.0, 2.0])), ("empty", dict(a=0, b=[]))]),
         )
     return _menu
